@@ -61,7 +61,7 @@ func randWatchAct(rng *rand.Rand, variant string) WatchAct {
 		switch {
 		case x < 25: // healthy
 		case x < 45:
-			a.CloseAfter = 1 + rng.Intn(4)
+			a.CloseAfter = 1 + rng.Intn(15) // a disconnect at any position of the history
 		case x < 55:
 			a.CloseAfter = -1
 		case x < 70:
@@ -69,7 +69,7 @@ func randWatchAct(rng *rand.Rand, variant string) WatchAct {
 		case x < 85:
 			a.Inject = map[int]string{rng.Intn(3): []string{"status", "bookmark", "unknown", "error"}[rng.Intn(4)]}
 			if rng.Intn(2) == 0 {
-				a.CloseAfter = 2 + rng.Intn(3)
+				a.CloseAfter = 2 + rng.Intn(10)
 			}
 		default:
 			a.Inject = map[int]string{rng.Intn(3): []string{"nilobj", "nonobj", "error-nil", "error-pod"}[rng.Intn(4)]}
@@ -117,6 +117,8 @@ func runCtlScenario(w *ndWriter, seed int64, variant string, idx int) bool {
 	s.srv = NewFakeServer(tr)
 	srv := s.srv
 	srv.Converged = variant == "relist" || variant == "watch"
+	// resource versions are compared as numbers by the cache but travel as strings: start near a digit boundary
+	srv.rv = []int{1, 1, 6, 95, 996}[rng.Intn(5)]
 
 	ctlFilter := []string{"null", "null", "lx1", "nsa", "nlx1"}[rng.Intn(5)]
 	period := time.Hour
@@ -142,6 +144,9 @@ func runCtlScenario(w *ndWriter, seed int64, variant string, idx int) bool {
 			if rng.Intn(3) == 0 {
 				a.Delay = time.Duration(rng.Intn(60)) * time.Millisecond
 				a.Late = rng.Intn(2) == 0
+			}
+			if i > 0 && rng.Intn(5) == 0 {
+				a.Repeat = true // a stale API server cache: the previous list's content and version once more
 			}
 			srv.lists = append(srv.lists, a)
 		}
@@ -269,13 +274,19 @@ func runCtlScenario(w *ndWriter, seed int64, variant string, idx int) bool {
 			}
 		} else {
 			// the server is quiet now: one further relist (started after this point) must bring the cache up to date;
+			// from here on the API server answers lists from its current state (no stale cache any more);
 			// wait for two list completions, since one may have been in flight
+			srv.mu.Lock()
+			for i := srv.nList; i < len(srv.lists); i++ {
+				srv.lists[i].Repeat, srv.lists[i].Late = false, false
+			}
+			srv.mu.Unlock()
 			s.waitLists(2, 3*time.Second+4*period)
 			s.barrierRetry("final")
 		}
 	case "watch":
 		// mutations in bursts; the controller is slowed around the bursts so that forwarded events queue up
-		n := 10 + rng.Intn(25)
+		n := 15 + rng.Intn(30)
 		for i := 0; i < n; i++ {
 			if rng.Intn(4) == 0 {
 				slowNow = time.Duration(rng.Intn(3000)) * time.Microsecond
